@@ -67,3 +67,6 @@ claim("C24", "property-based testing: every helper of Opcode/MacroOpcode x gener
 claim("C25", "property-based testing: generated modules x generated skip lists plus exhaustive enumeration of all skip subsets for <=4 local functions; oracle = independently decoded instruction list of the non-skipped functions (location, operator, end flag), also after reset() and after a reset in the middle of a walk",
       "Generated-input search over modules (0-5 local functions) and skip lists (empty, first, last, trailing, all, random, foreign IDs); the visit sequence must equal the decoded instruction lists; no panic on modules without local functions or with everything skipped.",
       "Trusted: wasmparser operator reader as the reference instruction list; an empty iteration is observed through curr_op()/next() returning None (curr_loc() is only called while curr_op() is Some).", "DESIGN.md 5/C25")
+claim("C26", "property-based testing: generated multi-module components x skip maps x injection plans; oracle (1) = independently decoded per-module instruction lists concatenated in module order, also after reset; oracle (2) = differential: modules extracted from the component instrumented through ComponentIterator vs the same modules instrumented alone through ModuleIterator (decoded content, rejected calls, encode panics)",
+      "Generated-input search over components with 1-4 generated core modules (incl. modules without local functions), skip maps of every shape (missing entries, unsorted lists) and plans of 0-8 injections of all modes issued in one instrumenting pass on each side.",
+      "Trusted: wasmparser decoder; for part (2) the library's module-level path is the reference, as the statement prescribes. Block types introduced by the function-exit lowering are compared structurally (their index among duplicate identical types is C04's subject).", "DESIGN.md 5/C26")
